@@ -130,8 +130,9 @@ def all_cases(ctx):
     n_big = (4000 if quick else 20000) * ctx.scale
     cfg = gs.GenConfig(max_equations=12, max_depth=4, max_lag=3, max_lead=2)
     cfg_deep = gs.GenConfig(max_equations=12, max_depth=3, max_lag=12, max_lead=10)
+    cfg_lhs = gs.GenConfig(max_equations=6, max_depth=3, max_lag=3, max_lead=2, lhs_offsets=True)
     for i in range(n_big):
-        prog = gs.gen_program(rng, cfg_deep if i % 5 == 0 else cfg)
+        prog = gs.gen_program(rng, cfg_lhs if i % 10 == 7 else cfg_deep if i % 5 == 0 else cfg)
         L = gs.catalogue_layout(names[i // 2 % len(names)], rng) if i % 2 == 0 else gs.random_layout(rng)
         cases.append(mkcase(prog, gs.render(prog, L), L.wrap_rhs, 'sampled', seed))
         if i % 4 == 1:      # the same program with inline verbatim fragments in every equation
@@ -297,6 +298,8 @@ def observe_(case, rep):
 
 
 def observe(case, rep):
+    if 'prog' not in case:
+        return None
     try:
         return observe_(case, rep)
     except Exception as e:  # noqa: BLE001
